@@ -342,6 +342,9 @@ def render(spec):
         files = {f: "\n" * lead + src for f, src in files.items()}
         if apos:
             apos = (apos[0], apos[1] + lead, apos[2])
+    if spec.get("crlf"):
+        # source files saved with CRLF line endings: lines and columns are those of the file as it is on disk
+        files = {f: src.replace("\n", "\r\n") for f, src in files.items()}
     return {"files": files, "entry": "main.ms", "expect": [("exact", o) for o in out], "fail": fail, "unordered": False,
             "stack": stack, "assert_pos": apos}
 
@@ -354,6 +357,7 @@ def generate(rng, failure=None, depth=None):
     # where in the innermost body the failing operation sits (None: directly in the body, or in an `if` when a successful pre-run exists)
     # (the property speaks of call depth 0-6; recursion adds a few activations per link, far from the interpreter's stack limit)
     spec["hazard"] = rng.weighted([(None, 8), ("map_shrink", 1), ("filter_shrink", 1)] + [(h, 1) for h in sorted(LOOP_HAZARDS)])
+    spec["crlf"] = rng.chance(1, 8)
     spec["bigconst"] = rng.weighted([(0, 8), (5000, 1), (70000, 1)])
     spec["lead"] = rng.weighted([(0, 5), (1, 1), (2, 1), (7, 1)])
     spec["body_hazard"] = rng.weighted([(None, 6)] + [(h, 1) for h in sorted(LOOP_HAZARDS)])
@@ -375,7 +379,7 @@ def shrink(spec):
             c = dict(spec)
             c[key] = False
             yield c
-    for key in ("wrap", "hazard", "body_hazard", "lead", "bigconst"):
+    for key in ("wrap", "hazard", "body_hazard", "lead", "bigconst", "crlf"):
         if spec.get(key):
             c = dict(spec)
             c[key] = None
